@@ -428,7 +428,13 @@ impl<'a, 's> Gen<'a, 's> {
             }
         }
         let rotate = self.s.bool();
-        go(w, &map, &self.v.descr_of, rotate)
+        let t = go(w, &map, &self.v.descr_of, rotate);
+        if self.s.chance(1, 3) {
+            // same automaton shape, but the alternatives are split over the || levels differently
+            let cut = self.s.below(4);
+            return resplit_levels(&t, cut);
+        }
+        t
     }
 
     /// the same word shape behind a different opening literal and with the commands exchanged: accepts
@@ -625,6 +631,35 @@ impl<'a, 's> Gen<'a, 's> {
             }
             _ => self.defined_ref(true).unwrap_or_else(|| self.word_lit()),
         }
+    }
+}
+
+/// `(a | b | c)` <-> `(a || b | c)` <-> `(a | b || c)`: alternations of plain literals are re-cut into || levels
+pub fn resplit_levels(e: &E, cut: usize) -> E {
+    fn flat_lits(e: &E, out: &mut Vec<E>) -> bool {
+        match e {
+            E::Lit { .. } => {
+                out.push(e.clone());
+                true
+            }
+            E::Alt(v) | E::Fb(v) => v.iter().all(|c| flat_lits(c, out)),
+            _ => false,
+        }
+    }
+    match e {
+        E::Alt(_) | E::Fb(_) => {
+            let mut lits = vec![];
+            if flat_lits(e, &mut lits) && lits.len() >= 2 {
+                let k = cut % lits.len();
+                let mk = |v: &[E]| if v.len() == 1 { v[0].clone() } else { E::Alt(v.to_vec()) };
+                if k == 0 {
+                    return mk(&lits);
+                }
+                return E::Fb(vec![mk(&lits[..k]), mk(&lits[k..])]);
+            }
+            e.map_children(&mut |c| resplit_levels(c, cut))
+        }
+        _ => e.map_children(&mut |c| resplit_levels(c, cut)),
     }
 }
 
